@@ -36,9 +36,10 @@ def fx_term(own, flush):
 
 
 def shard_text2(cases, cb, own, flush):
-    return (HDR2 + "Definition cases : list case := [\n" + ";\n".join(E.g_case(c) for c in cases) + "].\n"
-            + "Definition bad := Eval vm_compute in bad_casesX %s %s cases.\nPrint bad.\n" % (bl(cb), fx_term(own, flush))
-            + "Lemma tie : bad = [].\nProof. reflexivity. Qed.\n")
+    # (emit1, at the merge) cases travel in the token wire format of Model/EmitterTie.v (decode_case) and are checked
+    # by Model/EmitterTieX.bad_encodedX = check_caseX on the decoded case: ~15x less coqc time and memory than
+    # elaborating the cases as Gallina terms
+    return E.shard_text([E.e_case(c) for c in cases], (cb, own, flush))
 
 
 def sizes(tier):
@@ -160,7 +161,7 @@ def run_tie2(ck, harness):
     bad = [(i, r) for i, r in enumerate(rs) if r[0] != 0]
     if bad:
         i, r = bad[0]
-        ids = [int(x) for x in re.findall(r"\((\d+),\s*\[", r[1])]
+        ids = [int(x) for x in re.findall(r"\((\d+)(?:%Z)?,\s*\[", r[1])]
         res["detail"] = "shard %d: %s" % (i, r[1][-1200:])
         res["mismatch_cases"] = [c for c in shards[i] if c["id"] in ids][:3]
         return res
